@@ -59,3 +59,12 @@ pub enum ByteHoles2 {
     #[regex(b"~(?-u:[\x00-\x40\x42-\xff])")] Tilde,
     #[regex(b"[0-9]+")] Num,
 }
+
+// any-byte tails reached through alternatives of different length (the tail state is numbered before its predecessor)
+#[derive(Logos, Debug, PartialEq, Clone)]
+#[logos(utf8 = false)]
+pub enum AnyTail {
+    #[regex(b"y(?s-u:.)|xz(?s-u:.)")] Rec,
+    #[regex(b"[a-w]")] Letter,
+    #[regex(b"(?-u:[\\x80-\\xFF])+")] High,
+}
